@@ -379,7 +379,31 @@ impl Property for C14 {
                 Case::Hist(History { fam, keys: history::exhaustive_keys(fam), init: Init::Decoded { seq: 3, pairs }, ops: vec![Op::Redecode], fault_at: None, alt_keys: vec![] })
             })
         });
-        Box::new(sweep.chain(presence))
+        // a custom key type whose public-key entry collides with a reserved name (`ip6` holds its 4-byte key,
+        // which is not an address): the only way an ill-typed value gets under an address key.  Presence masks
+        // of the other five fields, then port updates.
+        let clash = (0..32u8).map(|mask| {
+            let mut calls = Vec::new();
+            if mask & 1 != 0 {
+                calls.push(BCall::Ip4([10, 0, 0, 1].into()));
+            }
+            for (bit, which, port) in [(2u8, PortKey::Tcp, 1u16), (4, PortKey::Tcp6, 128), (8, PortKey::Udp, 0), (16, PortKey::Udp6, 65535)] {
+                if mask & bit != 0 {
+                    calls.push(BCall::Port { which, port });
+                }
+            }
+            let mut s = [0u8; 32];
+            s[5] = mask;
+            Case::Hist(History {
+                fam: FamId::Clash,
+                keys: vec![Secret(s)],
+                init: Init::Builder { calls },
+                ops: vec![Op::SetPort { which: PortKey::Udp6, port: 9, k: 0 }, Op::SetPort { which: PortKey::Tcp6, port: 7, k: 0 }, Op::RemovePort { which: PortKey::Udp6, k: 0 }, Op::CloneSwap],
+                fault_at: None,
+                alt_keys: vec![],
+            })
+        });
+        Box::new(sweep.chain(presence).chain(clash))
     }
     fn fuzz_plans(&self) -> Vec<(&'static str, u64)> {
         vec![("history", 8000)]
